@@ -316,7 +316,7 @@ fn gen_plan(rng: &mut Prng, forced: Option<(u64, u64)>) -> (ClockSpec, u64) {
         let (c, _) = gen_clock(rng, &ClockCfg { n: TT_READS, faults, rate_per_1000: rate, max_stretch: 8 , long_stuck: false});
         readings = c.readings;
     }
-    (ClockSpec { readings, tail_key: rng.u64(), fork_skews: vec![] }, class)
+    (ClockSpec { readings, tail_key: rng.u64(), fork_skews: vec![], freeze: None }, class)
 }
 
 fn holds(e: &TimerError, f: &TimerFacts) -> bool {
@@ -418,7 +418,7 @@ impl Scenario for C13 {
                 let (clock, class) = gen_plan(rng, None);
                 let mut readings = prefix.readings[..base].to_vec();
                 readings.extend(clock.readings);
-                spec.clock = Some(ClockSpec { readings, tail_key: clock.tail_key, fork_skews: vec![] });
+                spec.clock = Some(ClockSpec { readings, tail_key: clock.tail_key, fork_skews: vec![], freeze: None });
                 spec.aux = vec![class, base as u64];
                 return spec;
             }
@@ -448,7 +448,7 @@ impl Scenario for C13 {
         let mut readings = first.readings;
         let base = readings.len();
         readings.extend(second.readings);
-        spec.clock = Some(ClockSpec { readings, tail_key: second.tail_key, fork_skews: vec![] });
+        spec.clock = Some(ClockSpec { readings, tail_key: second.tail_key, fork_skews: vec![], freeze: None });
         spec.aux = vec![class, base as u64, shape];
         spec
     }
